@@ -3,6 +3,7 @@ package main
 import (
 	"go/token"
 	"go/types"
+	"strings"
 
 	"golang.org/x/tools/go/ssa"
 )
@@ -77,6 +78,89 @@ func outcomeOfEvent(h *ssa.Function, ev ssa.Instruction) *eventOutcome {
 		return oc
 	}
 	return nil
+}
+
+// cntEvents: the events of the session's stream counter, whether they are spelled as calls of the dedicated one-line
+// helpers (streamCountIncr / streamCountDecr / streamCount) or as the atomic operation on the field itself.
+type cntEvents struct {
+	incrF, decrF, cntF *ssa.Function
+	field              *types.Var
+}
+
+func (a *c12Anchors) counterEvents(p *Prog) *cntEvents {
+	return &cntEvents{
+		incrF: p.Func("internal/multiplex", "Session.streamCountIncr"),
+		decrF: p.Func("internal/multiplex", "Session.streamCountDecr"),
+		cntF:  p.Func("internal/multiplex", "Session.streamCount"),
+		field: a.activeCount,
+	}
+}
+
+func (e *cntEvents) atomicAdd(i ssa.Instruction, step uint32) bool {
+	call, ok := i.(*ssa.Call)
+	if !ok || calleeName(&call.Call) != "sync/atomic.AddUint32" || len(call.Call.Args) != 2 {
+		return false
+	}
+	if fv, _ := fieldVar(call.Call.Args[0]); fv != e.field {
+		return false
+	}
+	k, isK := intConst(call.Call.Args[1])
+	return isK && uint32(k) == step
+}
+
+func (e *cntEvents) inHelper(i ssa.Instruction) bool {
+	f := i.Parent()
+	return f != nil && (f == e.incrF || f == e.decrF || f == e.cntF)
+}
+
+func (e *cntEvents) isIncr(i ssa.Instruction) bool {
+	if e.inHelper(i) {
+		return false
+	}
+	if e.incrF != nil && callsFn(i, e.incrF) {
+		return true
+	}
+	return e.atomicAdd(i, 1)
+}
+
+func (e *cntEvents) isDecr(i ssa.Instruction) bool {
+	if e.inHelper(i) {
+		return false
+	}
+	if e.decrF != nil && callsFn(i, e.decrF) {
+		return true
+	}
+	return e.atomicAdd(i, ^uint32(0))
+}
+
+func (e *cntEvents) isCountRead(v ssa.Value) bool {
+	call, ok := stripConv(v).(*ssa.Call)
+	if !ok {
+		return false
+	}
+	if e.cntF != nil && call.Call.StaticCallee() == e.cntF {
+		return true
+	}
+	if calleeName(&call.Call) == "sync/atomic.LoadUint32" && len(call.Call.Args) == 1 {
+		fv, _ := fieldVar(call.Call.Args[0])
+		return fv == e.field
+	}
+	return false
+}
+
+func (e *cntEvents) sites(p *Prog, pred func(ssa.Instruction) bool) []ssa.Instruction {
+	var out []ssa.Instruction
+	for _, f := range p.RepoFuncs {
+		if strings.HasSuffix(p.Pos(f.Pos()), "_test.go") || strings.HasSuffix(p.Pos(f.Pos()), "_fuzz.go") {
+			continue
+		}
+		allInstrs(f, func(i ssa.Instruction) {
+			if pred(i) {
+				out = append(out, i)
+			}
+		})
+	}
+	return out
 }
 
 // definitelyNonNilError: a package-level error variable's value, or the result of errors.New / fmt.Errorf.
